@@ -28,7 +28,7 @@ let msg = function
   | PartType -> "Partition type not supported" | BpbFooter -> "Bad BPB footer"
   | BpbCounts -> "Bad BPB block counts" | BpbSpc -> "Bad BPB blocks per cluster"
   | Fat12 -> "FAT12 is unsupported" | FatFormat -> "Invalid FAT format"
-  | NoFit -> "Volume does not fit the device" | InfoLoc -> "Bad FS info location"
+  | NoFit -> "Volume does not fit the device" | FatSmall -> "FAT too small for the cluster count" | InfoLoc -> "Bad FS info location"
   | LeadSig -> "Bad lead signature on InfoSector" | StrucSig -> "Bad struc signature on InfoSector"
   | TrailSig -> "Bad trail signature on InfoSector"
 
